@@ -234,6 +234,14 @@ def handle (vh vu : Variant) (j : Json) : IO Unit := do
     | "unifier" => handleTree (unifierSim vu) case pre alpha depth pobs sobs
     | _ => emit case false true "unknown-breaker" "" s!"unknown breaker {b}"
   | "race" => handleRace vh vu case b j
+  | "race-reopen" =>
+    -- never stuck, also after failure reports raced with permission requests in half-open: once the endpoint works
+    -- again and the timeout has elapsed a probe is admitted and successful probes close the breaker
+    let impl := jget j "impl"
+    let stuck := jnat (jget impl "stuck_trials")
+    let open' := jnat (jget impl "not_closed_trials")
+    emit case true (stuck == 0 && open' == 0) s!"{b}.race-reopen" (if stuck == 0 && open' == 0 then "" else s!"{b}-stuck-after-reopen-race")
+      (if stuck == 0 && open' == 0 then "" else s!"{b} breaker: in {stuck} of {jnat (jget impl "trials")} trials no probe was admitted after the timeout had elapsed again, in {open'} the breaker was not closed after the successful probes (failure reports had raced with permission requests in half-open)")
   | _ => emit case false true "unknown-kind" "" s!"unknown kind {kind}"
 
 /-- The variant the implementation is compared with is `activeHealth` / `activeUnifier` of the model;
